@@ -363,8 +363,12 @@ def l6(ctx, rep, rule='L6.clone'):
     # cloning of a prototype instance uses __args__/__kwargs__
     uses = {call_name(c): c for c in walk_no_nested(gi.node) if isinstance(c, ast.Call) and call_name(c) == 'getattr'
             and len(c.args) >= 2 and isinstance(c.args[1], ast.Constant)}
-    recorded = {c.args[1].value for c in walk_no_nested(gi.node) if isinstance(c, ast.Call) and call_name(c) == 'getattr'
-                and len(c.args) >= 2 and isinstance(c.args[1], ast.Constant)}
+    from ..idioms import private_closure
+    recorded = set()
+    for g in private_closure(ctx, gi):
+        recorded |= {c.args[1].value for c in walk_no_nested(g.node) if isinstance(c, ast.Call) and call_name(c) == 'getattr'
+                     and len(c.args) >= 2 and isinstance(c.args[1], ast.Constant)}
+        recorded |= {a.attr for a in walk_no_nested(g.node) if isinstance(a, ast.Attribute) and isinstance(a.ctx, ast.Load) and a.attr in ('__args__', '__kwargs__')}
     rep.check(rule, gi, gi.node.name, {'__args__', '__kwargs__'} <= recorded,
               'prototype instances are cloned from their recorded __args__/__kwargs__',
               'a prototype instance is no longer cloned from its recorded constructor arguments',
@@ -400,6 +404,13 @@ def l6(ctx, rep, rule='L6.clone'):
             if isinstance(n_, ast.Call) and isinstance(n_.func, ast.Name) and n_.func.id == 'setattr' and len(n_.args) >= 2 \
                     and isinstance(n_.args[1], ast.Constant):
                 stores.add(n_.args[1].value)
-        rep.check(rule, w, w.node.name, {'__args__', '__kwargs__'} <= stores,
-                  'store_args sets __args__ and __kwargs__', 'store_args no longer records both argument sets',
-                  construct='store_args wrapper')
+        dynamic = any(isinstance(n_, ast.Call) and isinstance(n_.func, ast.Name) and n_.func.id == 'setattr' and len(n_.args) >= 2
+                      and not isinstance(n_.args[1], ast.Constant) for n_ in walk_no_nested(w.node)) \
+            or any(isinstance(n_, ast.Call) and isinstance(n_.func, ast.Attribute) and n_.func.attr == 'update' and isinstance(n_.func.value, ast.Attribute)
+                   and n_.func.value.attr == '__dict__' for n_ in walk_no_nested(w.node))
+        if {'__args__', '__kwargs__'} <= stores:
+            rep.ok(rule, w, w.node.name, 'store_args sets __args__ and __kwargs__', construct='store_args wrapper')
+        elif dynamic:
+            rep.undecided(rule, w, w.node.name, 'store_args sets attributes under computed names: which ones is not derived', construct='store_args wrapper')
+        else:
+            rep.bad(rule, w, w.node.name, 'store_args no longer records both argument sets', construct='store_args wrapper')
